@@ -105,7 +105,11 @@ def lanes_check(chk, name, fn, sigs_by_len, w, expected_fn, tol=1e-9):
         base = np.array([s for s, _ in six], dtype='float64').reshape(2, 3, L)
         for axis in (0, 1, 2, -1, -2, -3):
             arr = np.moveaxis(base, 2, axis % 3).copy()
+            arr0 = arr.copy()
             out = fn(arr, w, axis=axis)
+            if not np.array_equal(arr, arr0):
+                chk.violation(f'{name}:the data array is left as it was given', {'property': 'C19', 'part': 'moving', 'op': name, 'window': w, 'axis': axis}, f'{name}(axis={axis}, w={w}) modified its input array')
+                return
             out = np.moveaxis(out, axis % 3, 2).reshape(6, -1)
             for li, (s, exp) in enumerate(six):
                 want = expected_fn(exp, w)
@@ -230,40 +234,72 @@ def widths(chk, q):
 
 
 def pad_extract(chk, rng):
-    """index maps: pad places the array at the offsets; extract_around_indexes takes data[i - before .. i + after]"""
+    """index maps (specs/SigIndex.tla): pad places the array at the offsets; extract_around_indexes takes data[i - before .. i + after] with Python
+    indexing; indexes are presented in every integer type that can hold their values (the result depends on the values only)"""
     from scared.signal_processing import pad, extract_around_indexes, ExtractMode
-    for _ in range(60):
+    q = chk.tier == 'quick'
+    cases = []
+    for _ in range(60 if q else 300):
         nd = rng.randint(1, 3)
         shp = [rng.randint(1, 3) for _ in range(nd)]
         off = [rng.randint(0, 2) for _ in range(nd)]
-        tgt = [s + o + rng.randint(0, 2) for s, o in zip(shp, off)]
-        a = np.arange(1, int(np.prod(shp)) + 1).reshape(shp)
-        pw = rng.choice([0, 7])
-        out = pad(a, tgt, off, pad_with=pw)
-        ok = list(out.shape) == tgt
-        if ok:
-            for idx in itertools.product(*[range(t) for t in tgt]):
-                src = tuple(i - o for i, o in zip(idx, off))
-                inside = all(0 <= x < s for x, s in zip(src, shp))
-                if out[idx] != (a[src] if inside else pw):
-                    ok = False
-                    break
-        chk.count(('pad', tuple(shp), tuple(off), tuple(tgt), pw), nontrivial=True)
-        if not ok:
-            chk.violation('pad:places the array at the offsets and fills the rest', {'property': 'C19', 'part': 'pad', 'shape': shp, 'offsets': off, 'target': tgt}, f'pad {shp} at {off} into {tgt}')
-    for _ in range(60):
-        L = rng.randint(6, 12)
-        data = np.array([rng.randint(0, 50) for _ in range(L)], dtype='int64')
-        before, after = rng.randint(0, 2), rng.randint(0, 2)
-        idxs = np.array(sorted(rng.sample(range(before, L - after), min(3, L - after - before))), dtype='int64')
-        st = extract_around_indexes(data, idxs, before, after, ExtractMode.STACK)
-        want = [[int(data[i - before + j]) for j in range(before + after + 1)] for i in idxs]
-        cc = extract_around_indexes(data, idxs, before, after, ExtractMode.CONCATENATE)
-        av = extract_around_indexes(data, idxs, before, after, ExtractMode.AVERAGE)
-        chk.count(('extract', L, before, after, tuple(idxs.tolist())), nontrivial=True)
-        if st.tolist() != want or cc.tolist() != [x for row in want for x in row] or not np.allclose(av, np.mean(np.array(want, dtype='float64'), axis=0)):
-            chk.violation('extract_around_indexes:takes exactly the documented samples', {'property': 'C19', 'part': 'extract', 'data': data.tolist(), 'indexes': idxs.tolist(), 'before': before, 'after': after},
-                          f'extract_around_indexes({data.tolist()}, {idxs.tolist()}, {before}, {after})')
+        tgt = [s_ + o + rng.randint(0, 2) for s_, o in zip(shp, off)]
+        cases.append({'kind': 'pad', 'flat': list(range(1, int(np.prod(shp)) + 1)), 'shape': shp, 'target': tgt, 'offsets': off, 'pw': rng.choice([0, 7])})
+    for k in range(90 if q else 400):
+        L = rng.randint(6, 12) if k % 5 else rng.randint(262, 300)           # longer than any 8-bit index as well
+        data = [rng.randint(0, 50) for _ in range(L)]
+        before, after = rng.randint(0, 3), rng.randint(0, 2)
+        lo = 0 if k % 2 else before                                             # every second case reaches before the first sample (Python indexing)
+        pool = list(range(lo, L - after))
+        idxs = rng.sample(pool, min(3, len(pool)))
+        if k % 3 == 0:
+            idxs = sorted(idxs)
+        if k % 2 == 0 and before:
+            idxs[0] = rng.randint(0, before - 1)
+        cases.append({'kind': 'extract', 'data': data, 'idxs': idxs, 'before': before, 'after': after})
+    path = dh.write_json(cases)
+    try:
+        r = tlc.run('SigIndex', cfg_text=tlc.cfg(invariants=['CentreIsIndexed', 'PadKeepsEverything', 'Emit']), env={'CASES': path}, workers=1, timeout=1200)
+    finally:
+        os.unlink(path)
+    chk.add_tlc('MC+GEN:pad / extract_around_indexes index maps', r)
+    if r.violated:
+        raise tlc.TLCError(f'SigIndex violates {r.violated}')
+    res = {e['case'] - 1: e['res'] for e in r.emits()}
+    if len(res) != len(cases):
+        raise tlc.TLCError('SigIndex: missing cases')
+    IDT = ['int64', 'uint8', 'int32', 'uint16', 'int16', 'uint32', 'int8']      # uint64 indexes are refused by numpy's own promotion (uint64 + int64 -> float64): not claimed
+    for ci, c in enumerate(cases):
+        e = res[ci]
+        if c['kind'] == 'pad':
+            a = np.array(c['flat']).reshape(c['shape'])
+            chk.count(('pad', ci), nontrivial=True)
+            if not e['fits']:
+                continue
+            out = pad(a, c['target'], c['offsets'], pad_with=c['pw'])
+            if list(out.shape) != c['target'] or out.reshape(-1).tolist() != e['out']:
+                chk.violation('pad:places the array at the offsets and fills the rest', {'property': 'C19', 'part': 'pad', 'shape': c['shape'], 'offsets': c['offsets'], 'target': c['target'],
+                                                                                        'got': out.tolist(), 'expected_flat': e['out']}, f'pad {c["shape"]} at {c["offsets"]} into {c["target"]}')
+            chk.traces_validated += 1
+            continue
+        if not e['ok']:
+            continue
+        data = np.array(c['data'], dtype='int64')
+        want = e['stack']
+        for dt in IDT:
+            info = np.iinfo(dt)
+            if min(c['idxs']) < info.min or max(c['idxs']) > info.max:
+                continue
+            idxs = np.array(c['idxs'], dtype=dt)
+            st = extract_around_indexes(data, idxs, c['before'], c['after'], ExtractMode.STACK)
+            cc = extract_around_indexes(data, idxs, c['before'], c['after'], ExtractMode.CONCATENATE)
+            av = extract_around_indexes(data, idxs, c['before'], c['after'], ExtractMode.AVERAGE)
+            chk.count(('extract', ci, dt), nontrivial=True)
+            if st.tolist() != want or cc.tolist() != [v for row in want for v in row] or not np.allclose(av, np.array(e['colsum'], dtype='float64') / len(want)):
+                chk.violation('extract_around_indexes:takes exactly the documented samples', {'property': 'C19', 'part': 'extract', 'data': c['data'], 'indexes': c['idxs'], 'index_dtype': dt, 'before': c['before'],
+                                                                                             'after': c['after'], 'got': st.tolist(), 'expected': want},
+                              f'extract_around_indexes(len {len(c["data"])}, {c["idxs"]} as {dt}, before={c["before"]}, after={c["after"]})')
+        chk.traces_validated += 1
 
 
 def run(chk):
